@@ -96,16 +96,23 @@ func (r *runner) runOne(ctx context.Context, leg *Leg, seed uint64, tapeFile str
 	cctx, cancel := context.WithTimeout(ctx, wd)
 	defer cancel()
 	cmd := exec.CommandContext(cctx, bin, "-test.run=^TestSim$", "-test.timeout=0")
+	// The environment block has the same variables and the same byte size for
+	// every run of a world (seed run, shrink candidate, replay), so that nothing
+	// address- or size-dependent can differ between a run and its replay.
+	kv := map[string]string{"VERIF_EMIT_TAPE": "0", "VERIF_TRACE": "0", "VERIF_LOG": "0"}
+	for _, e := range extraEnv {
+		if i := strings.Index(e, "="); i > 0 {
+			kv[e[:i]] = e[i+1:]
+		}
+	}
 	env := []string{
-		"PATH=/usr/bin:/bin", "HOME=" + os.Getenv("HOME"),
+		"PATH=/usr/bin:/bin", "HOME=/root",
 		"GOMAXPROCS=1", "GOGC=off", "GODEBUG=asyncpreemptoff=1", "GOTRACEBACK=single",
 		"GORACE=atexit_sleep_ms=0 halt_on_error=0 history_size=2",
-		"VERIF_WORLD=" + leg.World, "VERIF_SEED=" + strconv.FormatUint(seed, 10), "VERIF_TIER=" + r.tier,
+		"VERIF_WORLD=" + leg.World, fmt.Sprintf("VERIF_SEED=%020d", seed), fmt.Sprintf("VERIF_TIER=%-8s", r.tier),
+		fmt.Sprintf("VERIF_TAPE=%-160s", tapeFile),
+		"VERIF_EMIT_TAPE=" + kv["VERIF_EMIT_TAPE"], "VERIF_TRACE=" + kv["VERIF_TRACE"], "VERIF_LOG=" + kv["VERIF_LOG"],
 	}
-	if tapeFile != "" {
-		env = append(env, "VERIF_TAPE="+tapeFile)
-	}
-	env = append(env, extraEnv...)
 	cmd.Env = env
 	var so, se bytes.Buffer
 	cmd.Stdout = &so
